@@ -3,9 +3,12 @@ package checks
 import (
 	"context"
 	"fmt"
+	"math"
 	"math/rand"
+	"strings"
 	"time"
 
+	"bwverif/cv"
 	"bwverif/gen"
 	"bwverif/ref"
 	"bwverif/rt"
@@ -198,22 +201,136 @@ func c01Collisions(r *rt.Rec) {
 	}
 }
 
+// c01Neighbours: pairs of triples that differ in exactly one component by a
+// small change (C01's last sentence: they are different triples). Families:
+// int64 objects v and v +- 2^k over the whole range, adjacent float64 values,
+// texts / blobs / ids differing in their last byte or by a trailing NUL,
+// anchors 2^k ns apart, node types and ids differing in one rune. Each pair goes
+// through add a, Exist b, add b, list, remove b, Exist a, in both directions.
+func c01Neighbours(r *rt.Rec, rng *rand.Rand, n int) {
+	ctx := context.Background()
+	p := gen.MustImm("p")
+	s := gen.MustNode("/u", "a")
+	so := triple.NewNodeObject(s)
+	lo := func(t literal.Type, v interface{}) *triple.Object { return triple.NewLiteralObject(gen.MustLit(t, v)) }
+	type pair struct {
+		a, b *triple.Triple
+		cls  string
+	}
+	var pairs []pair
+	obj := func(cls string, a, b *triple.Object) {
+		pairs = append(pairs, pair{gen.MustTriple(s, p, a), gen.MustTriple(s, p, b), cls})
+	}
+	// int64
+	bases := []int64{0, 1, -1, math.MaxInt64, math.MinInt64, 1 << 55, -(1 << 55), 1 << 56, math.MaxInt64 - (1 << 55)}
+	for i := 0; i < n; i++ {
+		bases = append(bases, int64(rng.Uint64()))
+	}
+	for _, v := range bases {
+		for k := uint(0); k < 64; k++ {
+			w := v ^ (1 << k) // flips one bit: always a different value
+			obj("int64-one-bit", lo(literal.Int64, v), lo(literal.Int64, w))
+		}
+	}
+	// float64: neighbours in the value order, one-bit flips of the representation
+	fb := []float64{0.5, 1, -1, 1e-300, 1e300, 0.1, 3, math.MaxFloat64, math.SmallestNonzeroFloat64}
+	for i := 0; i < n; i++ {
+		f := math.Float64frombits(rng.Uint64())
+		if !math.IsNaN(f) && !math.IsInf(f, 0) {
+			fb = append(fb, f)
+		}
+	}
+	for _, f := range fb {
+		obj("float64-adjacent", lo(literal.Float64, f), lo(literal.Float64, math.Nextafter(f, math.Inf(1))))
+		for k := uint(0); k < 64; k += 3 {
+			g := math.Float64frombits(math.Float64bits(f) ^ (1 << k))
+			if !math.IsNaN(g) && g != f {
+				obj("float64-one-bit", lo(literal.Float64, f), lo(literal.Float64, g))
+			}
+		}
+	}
+	// text / blob
+	for _, t := range []string{"a", "abc", "", strings.Repeat("x", 300), "日本", "a b"} {
+		obj("text-trailing-byte", lo(literal.Text, t), lo(literal.Text, t+"\x00"))
+		obj("text-trailing-byte", lo(literal.Text, t+"a"), lo(literal.Text, t+"b"))
+		obj("text-trailing-byte", lo(literal.Text, t), lo(literal.Text, t+" "))
+		obj("blob-trailing-byte", lo(literal.Blob, []byte(t)), lo(literal.Blob, append([]byte(t), 0)))
+		obj("blob-trailing-byte", lo(literal.Blob, append([]byte(t), 1)), lo(literal.Blob, append([]byte(t), 2)))
+	}
+	obj("bool", lo(literal.Bool, true), lo(literal.Bool, false))
+	// anchors 2^k ns apart, in the predicate and in a reified predicate object
+	for _, t0 := range []time.Time{gen.T1, gen.T3, gen.TFarFuture, gen.TFarPast, time.Unix(0, 0).UTC()} {
+		for k := uint(0); k < 62; k++ {
+			t1 := t0.Add(time.Duration(1) << k)
+			pairs = append(pairs, pair{gen.MustTriple(s, gen.MustTemp("p", t0), so), gen.MustTriple(s, gen.MustTemp("p", t1), so), "anchor-2^k-ns"})
+			if k%4 == 0 {
+				obj("object-anchor-2^k-ns", triple.NewPredicateObject(gen.MustTemp("p", t0)), triple.NewPredicateObject(gen.MustTemp("p", t1)))
+			}
+		}
+	}
+	// ids and types
+	for _, id := range []string{"p", "foo", "pimmutabl", "a b"} {
+		pairs = append(pairs, pair{gen.MustTriple(s, gen.MustImm(id), so), gen.MustTriple(s, gen.MustImm(id+"\x00"), so), "predicate-id-trailing-byte"})
+		pairs = append(pairs, pair{gen.MustTriple(s, gen.MustImm(id+"a"), so), gen.MustTriple(s, gen.MustImm(id+"b"), so), "predicate-id-trailing-byte"})
+		pairs = append(pairs, pair{gen.MustTriple(s, gen.MustTemp(id, gen.T1), so), gen.MustTriple(s, gen.MustTemp(id+"\x00", gen.T1), so), "predicate-id-trailing-byte"})
+		pairs = append(pairs, pair{gen.MustTriple(gen.MustNode("/u", id+"a"), p, so), gen.MustTriple(gen.MustNode("/u", id+"b"), p, so), "node-id-one-rune"})
+		pairs = append(pairs, pair{gen.MustTriple(gen.MustNode("/u", id), p, so), gen.MustTriple(gen.MustNode("/v", id), p, so), "node-type-one-rune"})
+		pairs = append(pairs, pair{gen.MustTriple(s, p, triple.NewNodeObject(gen.MustNode("/u/x", id))), gen.MustTriple(s, p, triple.NewNodeObject(gen.MustNode("/u/y", id))), "object-node-type-one-rune"})
+	}
+	st := memory.NewStore()
+	g, _ := st.NewGraph(ctx, "?g")
+	for _, pr := range pairs {
+		if cv.Triple(pr.a) == cv.Triple(pr.b) {
+			continue
+		}
+		for dir := 0; dir < 2; dir++ {
+			a, b := pr.a, pr.b
+			if dir == 1 {
+				a, b = b, a
+			}
+			r.Note("neighbour probe " + a.String() + " | " + b.String())
+			r.Eval(1)
+			w := map[string]string{"a": a.String(), "b": b.String()}
+			g.AddTriples(ctx, []*triple.Triple{a})
+			if eb, _ := g.Exist(ctx, b); eb {
+				r.Violation("neighbours/"+pr.cls+"/exist-conflation", fmt.Sprintf("after adding %s, Exist(%s) is true", a, b), w)
+			}
+			g.AddTriples(ctx, []*triple.Triple{b})
+			got, _ := listGraph(ctx, g)
+			if len(got) != 2 {
+				r.Violation("neighbours/"+pr.cls+"/listing-conflation", fmt.Sprintf("after adding %s and %s the graph lists %d triples", a, b, len(got)), w)
+			}
+			g.RemoveTriples(ctx, []*triple.Triple{b})
+			if ea, _ := g.Exist(ctx, a); !ea {
+				r.Violation("neighbours/"+pr.cls+"/remove-conflation", fmt.Sprintf("removing %s also removed %s", b, a), w)
+			}
+			g.RemoveTriples(ctx, []*triple.Triple{a})
+			if got, _ := listGraph(ctx, g); len(got) != 0 {
+				r.Violation("neighbours/"+pr.cls+"/not-removed", fmt.Sprintf("after removing both, the graph still lists %d triples", len(got)), w)
+				g.RemoveTriples(ctx, []*triple.Triple{a, b})
+			}
+		}
+		r.Nontrivial(pr.a.String() + "|" + pr.b.String())
+	}
+}
+
 func init() {
 	register(&rt.Check{
 		ID:    "C01",
 		Level: "exploration",
-		Rule: "(a) three 4-triple universes (plain; differing only in predicate kind/anchor incl. 1ns and a respelled zone; differing only in literal type): every subset, reached by two operation paths, then every single AddTriples/RemoveTriples batch (all 16 subsets, duplicates, respelled, empty) — enumerated completely; (b) random histories of NewGraph/Graph/DeleteGraph/GraphNames/AddTriples/RemoveTriples over 3 names and a 12-triple universe, observed after every step (GraphNames, Graph ok/err, Exist of every universe triple, full listing as a multiset) against a map name->set model; (c) near-colliding value pairs; " +
+		Rule: "(a) three 4-triple universes (plain; differing only in predicate kind/anchor incl. 1ns and a respelled zone; differing only in literal type): every subset, reached by two operation paths, then every single AddTriples/RemoveTriples batch (all 16 subsets, duplicates, respelled, empty) — enumerated completely; (b) random histories of NewGraph/Graph/DeleteGraph/GraphNames/AddTriples/RemoveTriples over 3 names and a 12-triple universe, observed after every step (GraphNames, Graph ok/err, Exist of every universe triple, full listing as a multiset) against a map name->set model; (c) near-colliding value pairs; (d) neighbour pairs: triples differing in one component by a small change (one bit of an int64 / float64 over the whole range, adjacent floats, trailing byte of a text / blob / id, anchors 2^k ns apart, one rune of a node type or id), each through add a, Exist b, add b, list, remove b, Exist a in both directions; " +
 			"non-trivial history = has a re-add, a remove of an absent triple, overlapping consecutive batches and touches >=2 graphs; distinct by op sequence + universe",
 		Assume: []string{"triple identity in the model is the accessor-based canonical triple (zone ignored)", "operations go through a fresh Graph() handle each time"},
 		Floor:  200,
 		Phases: func(tier string, seed int64) []rt.Phase {
-			n, steps := 304, 40
+			n, steps, nb := 304, 40, 6
 			if tier == "thorough" {
-				n, steps = 5008, 60
+				n, steps, nb = 5008, 60, 200
 			}
 			return []rt.Phase{
 				{Name: "small", N: 3, Exhaustive: true, Run: func(i int, r *rt.Rec) { c01Small(r, i) }},
 				{Name: "collisions", N: 1, Exhaustive: true, Run: func(i int, r *rt.Rec) { c01Collisions(r) }},
+				{Name: "neighbours", N: 4, Run: func(i int, r *rt.Rec) { c01Neighbours(r, gen.Rng(seed, "c01n", i), nb) }},
 				{Name: "histories", N: 16, Run: func(i int, r *rt.Rec) { c01Histories(r, gen.Rng(seed, "c01h", i), n/16, steps, nil) }},
 			}
 		},
